@@ -83,7 +83,7 @@ func boundary(t *rapid.T, d int) float64 {
 func genCase(t *rapid.T) Case {
 	c := Case{
 		Format: rapid.SampledFrom([]string{"wkt", "geojson"}).Draw(t, "format"),
-		D:      rapid.SampledFrom([]int{0, 1, 2, 3, 3, 5, 6, 7, 8, 9, 12, 15, 4, 10, 11, 13, 14}).Draw(t, "d"),
+		D:      rapid.SampledFrom([]int{0, 1, 2, 3, 3, 5, 6, 7, 8, 9, 12, 15, 4, 10, 11, 13, 14, 16, 17, 18, 19, 20, 24, 30, 50, 100, 340}).Draw(t, "d"),
 	}
 	layouts := gen.Layouts4
 	if c.Format == "geojson" {
